@@ -345,3 +345,53 @@ def run(rep, tier):
     c01.rule_labels(c01._Rename(rep, {'R4': 'R7'}), idx)
     # R8: an actual stored through a stale breg lands anywhere in memory (import of C01-R14)
     c01.rule_call_registers(c01._Rename(rep, {'R14': 'R8'}), idx)
+
+
+def optimise(idx, X, items):
+    """Interpret xcmp::OptimiseDirectives' constructor on a list of lowered directives; returns (optimised list, UB events)."""
+    I = X.I
+    rec = idx.record('xcmp::OptimiseDirectives')
+    ctor = [c for c in rec.ctors if not c.node.get('isImplicit') and c.body is not None][0]
+    prev = I.construct('xcmp::CodeBuffer', [Obj('xcmp::SymbolTable', {}, 'st')])
+    X.fix_containers(prev)
+    prev.fields['instrs'] = Vec(list(items))
+    out = I.construct('xcmp::CodeBuffer', [Obj('xcmp::SymbolTable', {}, 'st')])
+    X.fix_containers(out)
+    obj = Obj('xcmp::OptimiseDirectives', {'instrs': prev.fields['instrs'], 'cb': out}, 'optimise')
+    env = {'this': obj, 'locals': {}}
+    for prm in ctor.params:
+        env['locals'][prm['id']] = prev if 'CodeBuffer' in qt(prm) else Obj('xcmp::SymbolTable', {}, 'st')
+    try:
+        I.stmt(ctor.body, env)
+    except ivinterp._Return:
+        pass
+    return out.fields['instrs'].items, list(I.ub)
+
+
+def pipeline_streams(idx):
+    """Directive streams that the real code generator produces for the smallest programs, lowered by the real LowerDirectives:
+    (name, model, lowered list).  Used to run later passes on what they really receive."""
+    out = []
+    # (a) no procedure at all: only the entry / exit stub
+    M = c01.CodeGenModel(idx)
+    M.X.visit_pre(_cg_visitor(M), Obj('xcmp::Program', {}, 'program'))
+    stub = [d for _, d in M.instrs()]
+    X = xmodel.XModel(idx, c01.CodeGenModel(idx).hooks)
+    out.append(('no procedure (stub only)', X, lower(idx, X, list(stub), const(64, False, 0))))
+    # (b) the stub followed by one procedure whose body is `stop`
+    M2 = c01.CodeGenModel(idx)
+    M2.X.visit_pre(_cg_visitor(M2), Obj('xcmp::Program', {}, 'program'))
+    stype = idx.enum('xcmp::SymbolType')
+    sym = M2.I.construct('xcmp::Symbol', [const(32, True, stype['PROC']), None, ('str', ''), ('str', 'main')])
+    sym.fields['frame'] = M2.frame
+    M2.frame.fields['size'] = const(64, False, 3)
+    M2.frame.fields['offset'] = const(64, False, 0)
+    items = [d for _, d in M2.instrs()]
+    items.append(M2.I.construct('xcmp::Prologue', [sym]))
+    n0 = len(M2.instrs())
+    M2.X.visit_post(M2.stmt_visitor(), M2.I.construct('xcmp::StopStatement', [None]))
+    items += [d for _, d in M2.instrs()[n0:]]
+    items.append(M2.I.construct('xcmp::Epilogue', [sym]))
+    X2 = xmodel.XModel(idx, c01.CodeGenModel(idx).hooks)
+    out.append(('stub + proc main() is stop', X2, lower(idx, X2, items, const(64, False, 0))))
+    return out
